@@ -94,8 +94,10 @@ func weatherRoot(root string) (string, bool) {
 
 var readers = []string{"hermes.WetterK", "hermes.ReadWeatherCSV", "hermes.ReadWeatherCZ"}
 
-func c04Readers(p *Prog, r *Report) {
-	r.Rule("C04.R2", "readers index by the validated day of year: every store of a weather value goes to [year][D−1] where the consecutive-day test on D (previous day + 1, or the date's own day-of-year) guards the store and its failure returns an error; the year length is set from the same D, unconditionally, in the same iteration", 27)
+func c04Readers(p *Prog, r *Report) { c04ReadersAs(p, r, "C04.R2") }
+
+func c04ReadersAs(p *Prog, r *Report, rule string) {
+	r.Rule(rule, "readers index by the validated day of year: every store of a weather value goes to [year][D−1] where the consecutive-day test on D (previous day + 1, or the date's own day-of-year) guards the store and its failure returns an error; the year length is set from the same D, unconditionally, in the same iteration", 27)
 	for _, key := range readers {
 		x := walked(p, key)
 		fn := strings.TrimPrefix(key, "hermes.")
